@@ -243,7 +243,7 @@ static i128 tlo(const Entry& e) { return e.is_signed ? -((i128)1 << (e.bits - 1)
 static i128 thi(const Entry& e) { return e.is_signed ? ((i128)1 << (e.bits - 1)) - 1 : ((i128)1 << e.bits) - 1; }
 int main() {
     char line[512];
-    signal(SIGFPE, on_fpe);
+    { struct sigaction sa; sa.sa_handler = on_fpe; sigemptyset(&sa.sa_mask); sa.sa_flags = SA_NODEFER; sigaction(SIGFPE, &sa, nullptr); }
     while (fgets(line, sizeof line, stdin)) {
         char cmd; int id; char a[4][64] = {{0}};
         char kind[32] = {0};
@@ -252,7 +252,7 @@ int main() {
             if (sscanf(line, "%c %d %63s", &cmd, &id, a[0]) != 3) { puts("bad"); continue; }
             const Entry* e = find(id); if (!e) { puts("bad"); continue; }
             i128 x = p128(a[0]);
-            if (sigsetjmp(g_jb, 1)) { g_in = 0; printf("P %d %s ovf=fpe trunc=fpe lossy=fpe val=fpe val2=fpe ub=0\n", id, a[0]); fflush(stdout); continue; }
+            if (sigsetjmp(g_jb, 0)) { g_in = 0; printf("P %d %s ovf=fpe trunc=fpe lossy=fpe val=fpe val2=fpe ub=0\n", id, a[0]); fflush(stdout); continue; }
             g_in = 1;
             bool o = e->ovf(x), t = e->tr(x), l = e->lossy(x);
             long ub0 = g_ub; std::string v = "-", v2 = "-";
@@ -267,38 +267,38 @@ int main() {
             i128 lo = tlo(*e), hi = thi(*e);
             int pb = e->bits < 32 ? 32 : e->bits; bool ps = e->bits < 32 ? true : bool(e->is_signed);
             i128 plo = ps ? -((i128)1 << (pb - 1)) : 0, phi = ps ? ((i128)1 << (pb - 1)) - 1 : ((i128)1 << pb) - 1;
-            long n = 0, cm = 0, of_ovf = 0, of_tr = 0, of_lossy = 0, vbad = 0, ub = 0, cleared = 0, nontriv = 0;
+            volatile long n = 0, cm = 0, of_ovf = 0, of_tr = 0, of_lossy = 0, vbad = 0, ub = 0, cleared = 0, nontriv = 0;   // live across siglongjmp
             volatile long fpe = 0;
             std::string first_cm = "-", first_ovf = "-", first_tr = "-", first_val = "-", first_ub = "-", first_fpe = "-";
             for (volatile i128 xv = lo; xv <= hi; xv = xv + 1) {
                 i128 x = xv;
-                ++n;
-                if (sigsetjmp(g_jb, 1)) { g_in = 0; if (!fpe) first_fpe = s128(xv); fpe = fpe + 1; continue; }
+                n = n + 1;
+                if (sigsetjmp(g_jb, 0)) { g_in = 0; if (!fpe) first_fpe = s128(xv); fpe = fpe + 1; continue; }   // no mask save: SA_NODEFER handler
                 g_in = 1;
                 bool o = e->ovf(x), t = e->tr(x), l = e->lossy(x);
                 // (a) certificate from the Lean model
                 bool mo = !(clo <= x && x <= chi);
                 bool mt = kind[0] == 'n' && kind[1] == 'e' ? false : (kind[0] == 'm' ? (x % md != 0) : (x != 0));
-                if (o != mo || t != mt || l != (mo || mt)) { if (!cm++) first_cm = s128(x); }
+                if (o != mo || t != mt || l != (mo || mt)) { if (!cm) first_cm = s128(x); cm = cm + 1; }
                 // (b) statement-level oracle
                 i128 y = x * N;
                 bool fits = (lo * D <= y && y <= hi * D) && (plo <= y && y <= phi);
                 bool exact = (y % D == 0);
-                if (o != !fits) { if (!of_ovf++) first_ovf = s128(x); }
-                if (t != !exact) { if (!of_tr++) first_tr = s128(x); }
-                if (l != (o || t)) { ++of_lossy; }
-                if (o || t) ++nontriv;
+                if (o != !fits) { if (!of_ovf) first_ovf = s128(x); of_ovf = of_ovf + 1; }
+                if (t != !exact) { if (!of_tr) first_tr = s128(x); of_tr = of_tr + 1; }
+                if (l != (o || t)) { of_lossy = of_lossy + 1; }
+                if (o || t) nontriv = nontriv + 1;
                 if (e->compiles && !l) {
-                    ++cleared;
+                    cleared = cleared + 1;
                     long ub0 = g_ub;
                     i128 v = e->conv(x);
-                    if (g_ub != ub0) { if (!ub++) first_ub = s128(x); }
-                    if (!exact || v * D != y) { if (!vbad++) first_val = s128(x); }
+                    if (g_ub != ub0) { if (!ub) first_ub = s128(x); ub = ub + 1; }
+                    if (!exact || v * D != y) { if (!vbad) first_val = s128(x); vbad = vbad + 1; }
                 }
                 g_in = 0;
             }
             printf("S %d n=%ld cert_mismatch=%ld first_cm=%s oracle_ovf=%ld first_ovf=%s oracle_tr=%ld first_tr=%s oracle_lossy=%ld cleared=%ld val_bad=%ld first_val=%s ub=%ld first_ub=%s flagged=%ld fpe=%ld first_fpe=%s\n",
-                   id, n, cm, first_cm.c_str(), of_ovf, first_ovf.c_str(), of_tr, first_tr.c_str(), of_lossy, cleared, vbad, first_val.c_str(), ub, first_ub.c_str(), nontriv, (long)fpe, first_fpe.c_str());
+                   id, (long)n, (long)cm, first_cm.c_str(), (long)of_ovf, first_ovf.c_str(), (long)of_tr, first_tr.c_str(), (long)of_lossy, (long)cleared, (long)vbad, first_val.c_str(), (long)ub, first_ub.c_str(), (long)nontriv, (long)fpe, first_fpe.c_str());
         } else { puts("bad"); }
         fflush(stdout);
     }
@@ -464,7 +464,8 @@ def explore(prop, tier, seed, rng, wd):
         for i in insts:
             c = certs[i["id"]]
             bits = INT_TYPES[i["T"]][1]
-            if bits <= 16 or (bits == 32 and sweep_bits == 32 and len(thorough32) < 24):
+            # thorough: exhaustive 2^32 sweeps for 16 instances in the first configuration, 4 in each further one
+            if bits <= 16 or (bits == 32 and sweep_bits == 32 and len(thorough32) < (16 if not stats["configs"][1:] else 4)):
                 if bits == 32:
                     thorough32.append(i["id"])
                 tk = c["trunc"]
